@@ -157,11 +157,11 @@ INVS = ["TypeOK", "OnceOnly", "NothingAliveAfterStop", "OneRegistered", "Lifecyc
 PROPS = ["StopReturns", "SockClosedLeadsToClosed"]
 
 
-def pack(name, first=("connect",), rest=(), v5=(), props=None, **consts):
+def pack(name, first=("connect",), rest=(), v5=(), props=None, deadlock=True, **consts):
     c = dict(BASE)
     c.update(consts)
     return {"name": name, "consts": c, "first": list(first), "rest": list(rest), "v5": list(v5),
-            "props": list(PROPS if props is None else props)}
+            "props": list(PROPS if props is None else props), "deadlock": deadlock}
 
 
 # The stuck state behind each recorded finding, as a state predicate of the FAITHFUL model (no deviation).  TLC's shortest
@@ -205,6 +205,9 @@ def tlc_pack(ctx, pk, ops, dev, tag, workers=2, timeout=1500, target=None):
         cfg += "INVARIANTS " + " ".join(INVS) + "\n"
         if pk["props"]:
             cfg += "PROPERTIES " + " ".join(pk["props"]) + "\n"
+        if not pk.get("deadlock", True):
+            # (a pack whose peers never close and where Stop is never called ends with idle connections)
+            cfg += "CHECK_DEADLOCK FALSE\n"
     name = "Conn_%s_%s" % (pk["name"], tag)
     tj = os.path.join(ctx.tmp("ce"), name + ".json")
     res = ctx.tlc("Conn", body, cfg, name=name, workers=workers, timeout=timeout, deadlock=True, heap="6g",
